@@ -4,10 +4,11 @@
 // A monolithic statement "L(a ^ b) == L(a) ^ L(b)" is an equivalence of two large XOR networks and times out on
 // every SAT solver (> 10 min), so GF(2)-linearity is proved the way one proves it on paper:
 //   1. R is additive (one step, byte-local: 6 s);
-//   2. L = R^16 is additive: induction over the 16 steps; the induction step uses the instance of (1) at the
-//      current pair of states (`kani::assume` of an instance of a universally quantified, proved lemma excludes
-//      no execution; licensed by uses=);
-//   3. L(x) = XOR_i L(unit_i(x_i)): induction over the 16 bytes with the instance of (2) at each step.
+//   2. L = R^16 is additive: composition of 16 additive maps.  Proved for EVERY additive R: bcref's `r` is replaced by
+//      the additive uninterpreted function `auf::f` (only instances of (1) are assumed; licensed by uses=), so the
+//      solver sees pure equality reasoning instead of XOR networks (the same statement with the real r inlined and
+//      the instances of (1) assumed step by step took 685 s);
+//   3. L(x) = XOR_i L(unit_i(x_i)): 15 uses of (2), again for every additive L.
 // Same for R^-1 / L^-1.
 //
 // @module file=kuznyechik/src/lib.rs
@@ -33,72 +34,106 @@ fn l_rinv_additive() {
     assert!(kz::eq(&kz::r_inv(&kz::xor(&a, &b)), &kz::xor(&kz::r_inv(&a), &kz::r_inv(&b))));
 }
 
+/// Additive uninterpreted function [u8;16] -> [u8;16] (Ackermann table with a concrete call counter):
+/// equal arguments give equal results; f(0) = 0; and whenever the argument is the XOR of two earlier arguments the
+/// result is the XOR of their results.  Everything else is unconstrained.  It stands for "any GF(2)-linear map";
+/// a harness that replaces a function g by it is licensed by the obligation proving g(a ^ b) == g(a) ^ g(b) for all a, b
+/// (every constraint imposed here is an instance of that statement, so no behaviour of the real g is excluded).
+pub mod auf {
+    use bcref::kuznyechik as kz;
+    pub const MAXC: usize = 52;
+    pub static mut IN: [[u8; 16]; MAXC] = [[0; 16]; MAXC];
+    pub static mut OUT: [[u8; 16]; MAXC] = [[0; 16]; MAXC];
+    pub static mut N: usize = 0;
+    #[allow(static_mut_refs)]
+    pub fn f(x: &[u8; 16]) -> [u8; 16] {
+        unsafe {
+            let mut y: [u8; 16] = kani::any();
+            let mut found = false;
+            let mut i = 0;
+            while i < N {
+                if !found && kz::eq(&IN[i], x) { y = OUT[i]; found = true; }
+                i += 1;
+            }
+            if !found {
+                if kz::eq(x, &[0u8; 16]) { y = [0u8; 16]; found = true; }
+            }
+            if !found {
+                let mut i = 0;
+                while i < N {
+                    let mut j = 0;
+                    while j < i {
+                        if kz::eq(&kz::xor(&IN[i], &IN[j]), x) { kani::assume(kz::eq(&y, &kz::xor(&OUT[i], &OUT[j]))); }
+                        j += 1;
+                    }
+                    i += 1;
+                }
+            }
+            assert!(N < MAXC);
+            IN[N] = *x;
+            OUT[N] = y;
+            N += 1;
+            y
+        }
+    }
+}
+
+// L = R^16 is additive, for every additive R (in particular the real one: l_r_additive)
 // @ob name=l_l_additive props=C07 kind=lemma fn=bcref::kuznyechik::l uses=l_r_additive timeout=600
 #[kani::proof]
-#[kani::unwind(17)]
+#[kani::stub(bcref::kuznyechik::r, auf::f)]
+#[kani::unwind(53)]
 fn l_l_additive() {
     let a = any_block();
     let b = any_block();
-    let (mut ta, mut tb, mut tab) = (a, b, kz::xor(&a, &b));
-    let mut k = 0;
-    while k < 16 {
-        // instance of l_r_additive at (ta, tb)
-        kani::assume(kz::eq(&kz::r(&kz::xor(&ta, &tb)), &kz::xor(&kz::r(&ta), &kz::r(&tb))));
-        ta = kz::r(&ta);
-        tb = kz::r(&tb);
-        tab = kz::r(&tab);
-        assert!(kz::eq(&tab, &kz::xor(&ta, &tb))); // invariant: R^k(a ^ b) = R^k(a) ^ R^k(b)
-        k += 1;
-    }
-    kani::cover!(a[0] == 1 && b[15] == 2);
-    assert!(kz::eq(&kz::l(&kz::xor(&a, &b)), &kz::xor(&kz::l(&a), &kz::l(&b))));
+    let la = kz::l(&a);
+    let lb = kz::l(&b);
+    let lab = kz::l(&kz::xor(&a, &b));
+    kani::cover!(a[0] == 1 && b[15] == 2 && la[3] == 7);
+    assert!(kz::eq(&lab, &kz::xor(&la, &lb)));
 }
 
 // @ob name=l_linv_additive props=C07 kind=lemma fn=bcref::kuznyechik::l_inv uses=l_rinv_additive timeout=600
 #[kani::proof]
-#[kani::unwind(17)]
+#[kani::stub(bcref::kuznyechik::r_inv, auf::f)]
+#[kani::unwind(53)]
 fn l_linv_additive() {
     let a = any_block();
     let b = any_block();
-    let (mut ta, mut tb, mut tab) = (a, b, kz::xor(&a, &b));
-    let mut k = 0;
-    while k < 16 {
-        kani::assume(kz::eq(&kz::r_inv(&kz::xor(&ta, &tb)), &kz::xor(&kz::r_inv(&ta), &kz::r_inv(&tb))));
-        ta = kz::r_inv(&ta);
-        tb = kz::r_inv(&tb);
-        tab = kz::r_inv(&tab);
-        assert!(kz::eq(&tab, &kz::xor(&ta, &tb)));
-        k += 1;
-    }
-    kani::cover!(a[0] == 1 && b[15] == 2);
-    assert!(kz::eq(&kz::l_inv(&kz::xor(&a, &b)), &kz::xor(&kz::l_inv(&a), &kz::l_inv(&b))));
+    let la = kz::l_inv(&a);
+    let lb = kz::l_inv(&b);
+    let lab = kz::l_inv(&kz::xor(&a, &b));
+    kani::cover!(a[0] == 1 && b[15] == 2 && la[3] == 7);
+    assert!(kz::eq(&lab, &kz::xor(&la, &lb)));
 }
 
-// @ob name=l_l_decomp props=C07 kind=lemma fn=bcref::kuznyechik::l uses=l_l_additive timeout=900
+// L(a) = XOR_i L(unit_i(a_i)), for every additive L (in particular the real one: l_l_additive)
+// @ob name=l_l_decomp props=C07 kind=lemma fn=bcref::kuznyechik::l uses=l_l_additive timeout=600
 #[kani::proof]
-#[kani::unwind(17)]
+#[kani::stub(bcref::kuznyechik::l, auf::f)]
+#[kani::unwind(53)]
 fn l_l_decomp() {
     let a = any_block();
     let mut p = [0u8; 16]; // bytes 0..i of a, rest zero
-    let mut acc = kz::l(&p); // XOR_{j<i} L(unit_j(a_j))   (L(0) computed, not assumed)
+    let mut acc = kz::l(&p); // XOR_{j<i} L(unit_j(a_j))
     let mut i = 0;
     while i < 16 {
         let u = kz::unit(i, a[i]);
-        // instance of l_l_additive at (p, u)
-        kani::assume(kz::eq(&kz::l(&kz::xor(&p, &u)), &kz::xor(&kz::l(&p), &kz::l(&u))));
+        let lu = kz::l(&u);
         p = kz::xor(&p, &u);
-        acc = kz::xor(&acc, &kz::l(&u));
+        acc = kz::xor(&acc, &lu);
         assert!(kz::eq(&kz::l(&p), &acc));
         i += 1;
     }
-    kani::cover!(a[0] == 1 && a[15] == 2);
+    kani::cover!(a[0] == 1 && a[15] == 2 && acc[3] == 7);
     assert!(kz::eq(&p, &a));
-    assert!(kz::eq(&kz::l(&a), &spec_l_by_bytes(&a)));
+    assert!(kz::eq(&kz::l(&a), &acc));
 }
 
-// @ob name=l_linv_decomp props=C07 kind=lemma fn=bcref::kuznyechik::l_inv uses=l_linv_additive timeout=900
+// @ob name=l_linv_decomp props=C07 kind=lemma fn=bcref::kuznyechik::l_inv uses=l_linv_additive timeout=600
 #[kani::proof]
-#[kani::unwind(17)]
+#[kani::stub(bcref::kuznyechik::l_inv, auf::f)]
+#[kani::unwind(53)]
 fn l_linv_decomp() {
     let a = any_block();
     let mut p = [0u8; 16];
@@ -106,15 +141,15 @@ fn l_linv_decomp() {
     let mut i = 0;
     while i < 16 {
         let u = kz::unit(i, a[i]);
-        kani::assume(kz::eq(&kz::l_inv(&kz::xor(&p, &u)), &kz::xor(&kz::l_inv(&p), &kz::l_inv(&u))));
+        let lu = kz::l_inv(&u);
         p = kz::xor(&p, &u);
-        acc = kz::xor(&acc, &kz::l_inv(&u));
+        acc = kz::xor(&acc, &lu);
         assert!(kz::eq(&kz::l_inv(&p), &acc));
         i += 1;
     }
-    kani::cover!(a[0] == 1 && a[15] == 2);
+    kani::cover!(a[0] == 1 && a[15] == 2 && acc[3] == 7);
     assert!(kz::eq(&p, &a));
-    assert!(kz::eq(&kz::l_inv(&a), &spec_linv_by_bytes(&a)));
+    assert!(kz::eq(&kz::l_inv(&a), &acc));
 }
 
 /// XOR_i L(unit_i(a_i))
@@ -136,4 +171,168 @@ pub fn spec_linv_by_bytes(a: &[u8; 16]) -> [u8; 16] {
         i += 1;
     }
     acc
+}
+
+// ------------------------------------------------------------------------------------------------------------------
+// Decryption with pre-transformed keys (sse2 / neon / soft backends keep K_10, L^-1(K_9), ..., L^-1(K_2), K_1).
+
+/// decryption keys as the table backends keep them
+pub fn spec_inv_keys(enc: &[[u8; 16]; 10]) -> [[u8; 16]; 10] {
+    let mut out = [[0u8; 16]; 10];
+    out[0] = enc[9];
+    let mut i = 1;
+    while i < 9 {
+        out[9 - i] = kz::l_inv(&enc[i]);
+        i += 1;
+    }
+    out[9] = enc[0];
+    out
+}
+
+/// What the table backends' decrypt_block computes from the ten words dk it is given, in terms of the standard's S, L:
+///   t = L^-1(b ^ dk_0);  t = L^-1(S^-1(t)) ^ dk_i (i = 1..8);  S^-1(t) ^ dk_9
+pub fn spec_dec_dk(dk: &[[u8; 16]; 10], b: &[u8; 16]) -> [u8; 16] {
+    let mut t = kz::l_inv(&kz::x(&dk[0], b));
+    let mut i = 1;
+    while i < 9 {
+        t = kz::x(&dk[i], &kz::l_inv(&kz::s_inv(&t)));
+        i += 1;
+    }
+    kz::x(&dk[9], &kz::s_inv(&t))
+}
+
+// With dk = spec_inv_keys(K) this is the standard's D (4.4.2) under K, for every K and block: additivity of L^-1, 8 times.
+// @ob name=l_dec_dk_is_standard props=C07 kind=lemma fn=bcref::kuznyechik::decrypt_with uses=l_linv_additive timeout=600
+#[kani::proof]
+#[kani::stub(bcref::kuznyechik::l_inv, auf::f)]
+#[kani::unwind(53)]
+fn l_dec_dk_is_standard() {
+    let k: [[u8; 16]; 10] = kani::any();
+    let b = any_block();
+    let dk = spec_inv_keys(&k);
+    let via_dk = spec_dec_dk(&dk, &b);
+    let std = kz::decrypt_with(&k, &b);
+    kani::cover!(b[0] == 1 && via_dk[15] == 2);
+    assert!(kz::eq(&via_dk, &std));
+}
+
+// ------------------------------------------------------------------------------------------------------------------
+// Inverses (for C01).
+
+// @ob name=l_r_inverse props=C01 kind=lemma fn=bcref::kuznyechik::r,bcref::kuznyechik::r_inv timeout=300
+#[kani::proof]
+#[kani::unwind(17)]
+fn l_r_inverse() {
+    let a = any_block();
+    assert!(kz::eq(&kz::r_inv(&kz::r(&a)), &a));
+    assert!(kz::eq(&kz::r(&kz::r_inv(&a)), &a));
+}
+
+/// Uninterpreted inverse pair on blocks: fwd and bwd are mutually inverse bijections, otherwise unconstrained
+/// (relation table with a concrete call counter; cf. des/tdes.rs `ufp`).
+pub mod ipuf {
+    use bcref::kuznyechik as kz;
+    pub const MAXC: usize = 40;
+    pub static mut X: [[u8; 16]; MAXC] = [[0; 16]; MAXC];
+    pub static mut Y: [[u8; 16]; MAXC] = [[0; 16]; MAXC];
+    pub static mut N: usize = 0;
+    #[allow(static_mut_refs)]
+    pub fn fwd(x: &[u8; 16]) -> [u8; 16] {
+        unsafe {
+            let mut y: [u8; 16] = kani::any();
+            let mut found = false;
+            let mut i = 0;
+            while i < N {
+                if !found && kz::eq(&X[i], x) { y = Y[i]; found = true; }
+                i += 1;
+            }
+            if !found {
+                let mut i = 0;
+                while i < N {
+                    kani::assume(!kz::eq(&Y[i], &y)); // injective
+                    i += 1;
+                }
+            }
+            assert!(N < MAXC);
+            X[N] = *x; Y[N] = y; N += 1;
+            y
+        }
+    }
+    #[allow(static_mut_refs)]
+    pub fn bwd(y: &[u8; 16]) -> [u8; 16] {
+        unsafe {
+            let mut x: [u8; 16] = kani::any();
+            let mut found = false;
+            let mut i = 0;
+            while i < N {
+                if !found && kz::eq(&Y[i], y) { x = X[i]; found = true; }
+                i += 1;
+            }
+            if !found {
+                let mut i = 0;
+                while i < N {
+                    kani::assume(!kz::eq(&X[i], &x));
+                    i += 1;
+                }
+            }
+            assert!(N < MAXC);
+            X[N] = x; Y[N] = *y; N += 1;
+            x
+        }
+    }
+}
+
+// L^-1 L = L L^-1 = id, for every inverse pair (R, R^-1) (in particular the real one: l_r_inverse)
+// @ob name=l_l_inverse props=C01 kind=lemma fn=bcref::kuznyechik::l,bcref::kuznyechik::l_inv uses=l_r_inverse timeout=600
+#[kani::proof]
+#[kani::stub(bcref::kuznyechik::r, ipuf::fwd)]
+#[kani::stub(bcref::kuznyechik::r_inv, ipuf::bwd)]
+#[kani::unwind(41)]
+fn l_l_inverse() {
+    let a = any_block();
+    assert!(kz::eq(&kz::l_inv(&kz::l(&a)), &a));
+}
+// @ob name=l_l_inverse_rev props=C01 kind=lemma fn=bcref::kuznyechik::l,bcref::kuznyechik::l_inv uses=l_r_inverse timeout=600
+#[kani::proof]
+#[kani::stub(bcref::kuznyechik::r, ipuf::fwd)]
+#[kani::stub(bcref::kuznyechik::r_inv, ipuf::bwd)]
+#[kani::unwind(41)]
+fn l_l_inverse_rev() {
+    let a = any_block();
+    assert!(kz::eq(&kz::l(&kz::l_inv(&a)), &a));
+}
+
+// pi^-1 pi = pi pi^-1 = id
+// @ob name=l_s_inverse props=C01 kind=lemma fn=bcref::kuznyechik::s,bcref::kuznyechik::s_inv timeout=300
+#[kani::proof]
+#[kani::unwind(17)]
+fn l_s_inverse() {
+    let v: u8 = kani::any();
+    assert!(kz::PI_INV[kz::PI[v as usize] as usize] == v);
+    assert!(kz::PI[kz::PI_INV[v as usize] as usize] == v);
+    let a = any_block();
+    assert!(kz::eq(&kz::s_inv(&kz::s(&a)), &a));
+    assert!(kz::eq(&kz::s(&kz::s_inv(&a)), &a));
+}
+
+// D_K(E_K(a)) = a and E_K(D_K(a)) = a for every ten round keys, for every inverse pair (L, L^-1) and (S, S^-1)
+// @ob name=l_ref_roundtrip props=C01 kind=lemma fn=bcref::kuznyechik::encrypt_with,bcref::kuznyechik::decrypt_with uses=l_l_inverse,l_l_inverse_rev,l_s_inverse timeout=600
+#[kani::proof]
+#[kani::stub(bcref::kuznyechik::l, ipuf::fwd)]
+#[kani::stub(bcref::kuznyechik::l_inv, ipuf::bwd)]
+#[kani::unwind(41)]
+fn l_ref_roundtrip() {
+    let k: [[u8; 16]; 10] = kani::any();
+    let a = any_block();
+    assert!(kz::eq(&kz::decrypt_with(&k, &kz::encrypt_with(&k, &a)), &a));
+}
+// @ob name=l_ref_roundtrip_rev props=C01 kind=lemma fn=bcref::kuznyechik::encrypt_with,bcref::kuznyechik::decrypt_with uses=l_l_inverse,l_l_inverse_rev,l_s_inverse timeout=600
+#[kani::proof]
+#[kani::stub(bcref::kuznyechik::l, ipuf::fwd)]
+#[kani::stub(bcref::kuznyechik::l_inv, ipuf::bwd)]
+#[kani::unwind(41)]
+fn l_ref_roundtrip_rev() {
+    let k: [[u8; 16]; 10] = kani::any();
+    let a = any_block();
+    assert!(kz::eq(&kz::encrypt_with(&k, &kz::decrypt_with(&k, &a)), &a));
 }
